@@ -298,6 +298,37 @@ fn environments_part<V: Variant>(ctx: &mut Ctx, tier: Tier, keys: &[KeyCtx<V>]) 
         t.into_part(ctx, part);
     }
 
+    // HashToPoint's XOF stream as an environment answer: sign and verify under the same scripted chunk stream
+    {
+        let fam: Vec<(String, Vec<u16>)> = super::c14::scripted_streams(V::N, false).into_iter().filter(|(name, _)| name.starts_with("constant") || name.contains("spread") || name.starts_with("every") || name.contains("run of 8 ") || name.contains("run of 64 ") || name.contains("run of 2048 ")).collect();
+        let t = fam
+            .par_iter()
+            .map(|(name, chunks)| {
+                let mut t = Tally::default();
+                let key = &keys[0];
+                t.cases += 1;
+                t.calls += 2;
+                let prefix: Vec<u8> = chunks.iter().flat_map(|v| [(v >> 8) as u8, (v & 0xff) as u8]).collect();
+                let case = || json!({"kind":"xof-stream","variant":V::N,"seed":key.seed,"stream":name});
+                falcon_rust::verif_hooks::install_xof_prefix(prefix);
+                let r = catch(|| {
+                    let sig = with_stream(14, || V::sign(b"scripted", &key.sk));
+                    V::verify(b"scripted", &sig, &key.pk)
+                });
+                falcon_rust::verif_hooks::uninstall_xof_prefix();
+                match r {
+                    Ok(true) => t.out("verifies"),
+                    Ok(false) => t.viol(format!("signature-rejected:n={}:scripted-hash-stream", V::N), format!("{}: with HashToPoint's XOF delivering [{}], sign produced a signature that verify rejects", V::name(), name), case()),
+                    Err(e) => t.viol(format!("sign-or-verify-panic:n={}:scripted-hash-stream", V::N), format!("{}: sign / verify panicked with HashToPoint's XOF delivering [{}]: {}", V::name(), name, e), case()),
+                }
+                t
+            })
+            .reduce(Tally::default, reduce);
+        let mut part = Part::new(&format!("scripted_hash_streams_{}", V::N), &format!("sign then verify while HashToPoint's XOF reader delivers each of {} scripted chunk streams first (constant accepted values, runs of 8 / 64 / 2048 rejected chunks at four positions, many rejected chunks spread out, periodic rejections): the signature verifies, nothing panics", fam.len()));
+        part.exhaustive = true;
+        t.into_part(ctx, part);
+    }
+
     // message length ladder: "every message of any length"
     let top: usize = if tier.thorough() { 2100 } else { 600 };
     let mut lens: Vec<usize> = (0..=top).collect();
@@ -551,6 +582,7 @@ pub fn replay(case: &Value) -> Result<Option<String>, String> {
             }
             Ok(if variant == 512 { one::<V512>(seed, &msg, stream, &devs) } else { one::<V1024>(seed, &msg, stream, &devs) })
         }
+        "xof-stream" => Err("re-run ./vf check C01 (the stream family is enumerated deterministically)".into()),
         "tight" => {
             let seed = case.get("seed").and_then(|x| x.as_u64()).ok_or("seed")?;
             let k = case.get("stream").and_then(|x| x.as_u64()).ok_or("stream")?;
